@@ -286,6 +286,8 @@ class C02(core.Check):
     def run_impl(self, case):
         res, _ = self._run(case)
         self._last = (id(case), res)
+        if not all(pc.names_ascii(f, s) for o, f, s, snap in res):
+            return None          # non-ASCII tag/attribute name: outside the model's string fragment, oracle only
         return '\x1f'.join(snap if outcome == 'ok' else outcome.replace('|extra-reset', '') for outcome, f, s, snap in res)
 
     def coq_case(self, case):
